@@ -142,6 +142,22 @@ func c05Tasks(tier string) []mc.Task {
 			}})
 		}
 	}
+	// (i') history independence: the same codon under all three codes one after the other, in
+	// every order of the codes, inside one process (a translation must not depend on which code
+	// an earlier call used — e.g. a cache keyed by codon only)
+	for i := 0; i < len(c05CodonAlpha); i++ {
+		first := c05CodonAlpha[i]
+		ts = append(ts, mc.Task{Name: fmt.Sprintf("codeswitch#%q", first), Run: func(c *mc.Ctx) {
+			forEachStringLen(c05CodonAlpha, 3, []byte{first}, func(s []byte) bool {
+				perms(3, func(p []int) {
+					for _, k := range p {
+						c05Check(c, c05Case{Kind: "seq", Seqs: []string{string(s)}, Frame: 0, Code: geneticCodes[k]})
+					}
+				})
+				return true
+			})
+		}})
+	}
 	// (ii) all sequences of length 0..maxL over {A,T,G,R,-} x frames x codes
 	maxL := 6
 	if tier == "thorough" {
@@ -602,7 +618,7 @@ func init() {
 	mc.Register(&mc.Prop{
 		ID:    "C05",
 		Level: "exploration",
-		Rule: "bounded-exhaustive enumeration: (i) all 42^3 codons over IUPAC letters in both cases plus - . * ? X x Z 1 space 0xE9, x 3 genetic codes, through Sequence.Translate and Alignment.Translate; " +
+		Rule: "bounded-exhaustive enumeration: (i) all 42^3 codons over IUPAC letters in both cases plus - . * ? X x Z 1 space 0xE9, x 3 genetic codes, through Sequence.Translate and Alignment.Translate, and every codon under the three codes in all 6 orders inside one process (a result must not depend on which code an earlier call used); " +
 			"(ii) all sequences of length 0..6 (quick) / 0..8 (thorough) over {A,T,G,R,-} x frames {0,1,2,-1} x 3 codes through Sequence/SeqBag/Alignment.Translate; " +
 			"(iii) CodonAlign for all nt rows of length 3..6/8 over ACGT with every placement of <=2 gap columns; (iv) TranslateByReference for all 2-row alignments L<=6/7 over {A,C,G,-} x frames x each reference. " +
 			"A case is non-trivial when the call succeeded and its full result was compared with the NCBI-table oracle (error-path and skipped cases are not counted); distinct = distinct (entry point, input, frame, code).",
